@@ -174,7 +174,8 @@ _ADDED = {
     'C09': ' Also decided: return_samples changes no argument of any feature / label computation (RS-LATE).',
     'C10': ' Unit signatures follow the positional normal form of neurodsp calls; rounding or quantising a V-valued term counts as an absolute level.',
     'C13': ' Also decided: the per-epoch option list is consumed on a deep copy (COPY-FIRST) and read without pop, because deepcopy keeps list positions that name one dict as one object (EPOCH-OWN-OPTIONS).',
-    'C14': ' Also decided: constructor defaults equal compute_features defaults (DEFAULT-AGREE); BycycleGroup.recompute_edges recomputes every member and refreshes the group tables (GROUP-RECOMPUTE).',
+    'C14': ' Also decided: constructor defaults equal compute_features defaults (DEFAULT-AGREE); BycycleGroup.recompute_edges recomputes every member and refreshes the group tables (GROUP-RECOMPUTE); the members a group lowers thresholds on hold the group\'s own thresholds dictionary, so an edit after a fit reaches them (SETTINGS-SHARED); a method that returns early leaves the stored state as it was on that path (heap stores after an early return are conditional), so a skipped recomputation shows in RECOMPUTE.',
+    'C15': ' Also decided: no result is collected in worker-completion order (NO-SCHEDULE: imap_unordered / as_completed, called or merely referenced).',
     'C16': ' Also decided: the object front end lowers the stored thresholds by r on every call without writing them back (OBJ-RECOMPUTE). Known finding (keyed, not repaired): on a peak-centred table '
            'without sample_ columns the edge values pair the flanks of the other centring (CENTRE-KNOWN).',
     'C18': ' Limits are compared in seconds (sample / fs) and offsets are rounded, not truncated (LIMIT-DEF, GRID-ROUND).',
